@@ -721,6 +721,39 @@ def apply(it, fn, args, dest_ty, term, caller, depth, M):
                     else:
                         hi_ = mid
                 return Adt("std::result::Result", 1, [Int(64, False, val=lo_)])
+            if name == "partition_point" and len(args) == 2:
+                # the library bisects; for a slice that IS partitioned by the predicate the result is the number of leading `true`s.
+                # (evaluated on every element: a predicate that is not monotone over the slice makes the result unspecified)
+                flags = []
+                for i_, e in enumerate(el):
+                    r_ = call_callable(it, args[1], [Ref(r.cell, r.path + (("e", off + i_),))], term, caller, depth)
+                    if not (isinstance(r_, Int) and r_.is_conc()):
+                        raise Undecided("partition_point predicate yields %r" % (r_,))
+                    flags.append(bool(r_.val))
+                k_ = sum(flags)
+                if flags != [True] * k_ + [False] * (n - k_):
+                    raise Undecided("partition_point on a slice that is not partitioned by the predicate (result unspecified)")
+                return Int(64, False, val=k_)
+            if name in ("binary_search_by", "binary_search_by_key") and len(args) in (2, 3):
+                ords = []
+                for i_, e in enumerate(el):
+                    er = Ref(r.cell, r.path + (("e", off + i_),))
+                    if name == "binary_search_by":
+                        o = call_callable(it, args[1], [er], term, caller, depth)
+                        if not (isinstance(o, Adt) and o.variant is not None and not o.fields):
+                            raise Undecided("binary_search_by comparator yields %r" % (o,))
+                        ords.append(o.variant - 1)
+                    else:
+                        kv = call_callable(it, args[2], [er], term, caller, depth)
+                        ords.append(_ord_of(it, kv, deref_val(it, args[1]), name))
+                nl, ne = sum(1 for c in ords if c < 0), sum(1 for c in ords if c == 0)
+                if ords != [-1] * nl + [0] * ne + [1] * (n - nl - ne):
+                    raise Undecided("%s on a slice that is not ordered with respect to the probe (result unspecified)" % name)
+                if ne == 1:
+                    return Adt("std::result::Result", 0, [Int(64, False, val=nl)])
+                if ne == 0:
+                    return Adt("std::result::Result", 1, [Int(64, False, val=nl)])
+                raise Undecided("%s with several matching elements (any of them may be returned)" % name)
             if name in ("sort_by_key", "sort_unstable_by_key", "sort_by_cached_key") and len(args) == 2:
                 import functools
                 keys = [call_callable(it, args[1], [Ref(Cell(e, "sort-item"))], term, caller, depth) for e in el]
